@@ -252,6 +252,11 @@ func (l *Lexer) GetLineAndCol(pos int) (string, int, int) {
 	inLine := false
 	// pos is a byte offset, so iterate over bytes rather than runes
 	for i := 0; i < len(l.src); i++ {
+		// a newline belongs to the line it ends
+		if i == pos {
+			inLine = true
+			col = i - lineStart
+		}
 		if l.src[i] == '\n' {
 			if inLine {
 				return l.src[lineStart:i], line, col
@@ -259,10 +264,10 @@ func (l *Lexer) GetLineAndCol(pos int) (string, int, int) {
 			line++
 			lineStart = i + 1
 		}
-		if i == pos {
-			inLine = true
-			col = i - lineStart
-		}
+	}
+	if !inLine {
+		// past the end of the text: just after the last line
+		col = len(l.src) - lineStart
 	}
 	return l.src[lineStart:], line, col
 }
